@@ -37,8 +37,13 @@ def fForall (hs : Nat) (variables : List String) (h : Nat) : AM Int :=
 /-- `Function.let(**definitions)`: `return self.bdd.let(definitions, self)` (keys are names) -/
 def fLet (d : ALetArg) (hs : Nat) (h : Nat) : AM (Int × Bool) := aLet d hs h
 
-/-- `Function.__hash__` / `Function.__int__`: `self.node` -/
-def fHash (hs : Nat) : AM Int := nodeOwn hs
+/-- `hash(f)`: `Function.__hash__` returns `self.node`; CPython reserves the hash value `-1`
+(its error marker) and hands out `-2` instead, so the constant `false` hashes to `-2` -/
+def pyHash (i : Int) : Int := if i = -1 then -2 else i
+
+def fHash (hs : Nat) : AM Int := do
+  let s ← nodeOwn hs
+  pure (pyHash s)
 
 /-- `Function.__str__`: `f'@{int(self)}'` -/
 def fStr (hs : Nat) : AM String := do
